@@ -56,7 +56,7 @@ package atree
 //@   ensures[C06] err == nil ==> as(a.root, *ArrayMetaDataSlab).extraData == old(ite(is(a.root, *ArrayDataSlab), as(a.root, *ArrayDataSlab).extraData, as(a.root, *ArrayMetaDataSlab).extraData)) &&
 //@        as(a.root, *ArrayMetaDataSlab).header.size == 40
 //@   ensures[C09] err == nil ==> metaLinked(as(a.root, *ArrayMetaDataSlab))
-//@   ensures[C01 C03] err == nil ==> has(stored, a.root) && has(stored, sto[as(a.root, *ArrayMetaDataSlab).childrenHeaders[0].slabID]) && has(stored, sto[as(a.root, *ArrayMetaDataSlab).childrenHeaders[1].slabID])
+//@   ensures[C01 C03 C08] err == nil ==> has(stored, a.root) && has(stored, sto[as(a.root, *ArrayMetaDataSlab).childrenHeaders[0].slabID]) && has(stored, sto[as(a.root, *ArrayMetaDataSlab).childrenHeaders[1].slabID])
 //@   modifies a.root, ArrayDataSlab.elements, ArrayDataSlab.header, ArrayDataSlab.next, ArrayDataSlab.extraData,
 //@        ArrayMetaDataSlab.childrenHeaders, ArrayMetaDataSlab.childrenCountSum, ArrayMetaDataSlab.header, ArrayMetaDataSlab.extraData,
 //@        ghost.sto, ghost.issued, ghost.stored, ghost.touched, alloc
@@ -70,7 +70,9 @@ package atree
 //@   ensures[C06] err == nil && is(a.root, *ArrayDataSlab) ==> wfADS(as(a.root, *ArrayDataSlab)) &&
 //@        as(a.root, *ArrayDataSlab).extraData == old(as(a.root, *ArrayMetaDataSlab).extraData)
 //@   ensures[C09] err == nil ==> sto[childID] == nil && sto[hdrOf(a.root).slabID] == a.root
-//@   ensures[C01 C03] err == nil ==> has(stored, a.root)
+//@   ensures[C01 C03 C08] err == nil ==> has(stored, a.root)
+//@   # the promoted slab keeps its size, except that a leaf exchanges the 21-byte sibling prefix for the 5-byte root prefix
+//@   ensures[C05 C06] err == nil ==> hdrOf(a.root).size == old(hdrOf(sto[childID]).size) - ite(is(a.root, *ArrayDataSlab), 16, 0)
 //@   modifies a.root, ArrayDataSlab.header, ArrayDataSlab.extraData, ArrayMetaDataSlab.header, ArrayMetaDataSlab.extraData, ghost.sto, ghost.issued, ghost.stored, ghost.touched, alloc
 
 //@ # ---- notification protocol (C10) and root identity (C01) at the container level
@@ -84,30 +86,61 @@ package atree
 //@           len(as(a.root, *ArrayMetaDataSlab).childrenHeaders) >= 2 && as(a.root, *ArrayMetaDataSlab).header.size <= maxThreshold &&
 //@           as(a.root, *ArrayMetaDataSlab).extraData != nil)
 
-//@ func (a *Array) set(index, value) (existing, err)  serves C01 C10 C11
+//@ # the root handed to the parent notification is within the size limit, and an index root has at least two children (C05)
+//@ pred arrRootFits(a *Array) = isArr(a.root) &&
+//@      (is(a.root, *ArrayDataSlab) ==> as(a.root, *ArrayDataSlab).header.size <= maxThreshold) &&
+//@      (is(a.root, *ArrayMetaDataSlab) ==> as(a.root, *ArrayMetaDataSlab).header.size <= maxThreshold &&
+//@           (a.root == old(a.root) ==> len(as(a.root, *ArrayMetaDataSlab).childrenHeaders) >= 2))
+
+//@ func (a *Array) set(index, value) (existing, err)  serves C01 C05 C10 C11
 //@   requires value != nil
 //@   assume rootReady(a) because "tree invariant at the root (composition)"
+//@   before[C05] Array.notifyParentIfNeeded: arrRootFits(a)
+//@   before[C01] ArrayDataSlab.Set: arg_recv == a.root && arg_storage == a.Storage && arg_index == index && arg_value == value
+//@   before[C01] ArrayMetaDataSlab.Set: arg_recv == a.root && arg_storage == a.Storage && arg_index == index && arg_value == value
+//@   before[C10] Array.setCallbackWithChild: arg_i == index && arg_child == value && arg_maxInlineSize == maxInlineArrayElementSize
 //@   ensures[C10] err == nil ==> notified > old(notified)
 //@   ensures[C11] err == nil && contV(value) ==> has(a.mutableElementIndex, vvid(unwV(value))) && a.mutableElementIndex[vvid(unwV(value))] == index
 //@   modifies heap, ghost.sto, ghost.issued, ghost.stored, ghost.touched, ghost.notified, ghost.updFail, alloc
 
-//@ func (a *Array) Insert(index, value) (err)  serves C01 C10 C18
+//@ func (a *Array) Insert(index, value) (err)  serves C01 C05 C10 C11 C18
 //@   requires value != nil
 //@   assume rootReady(a) because "tree invariant at the root (composition)"
+//@   before[C05] Array.notifyParentIfNeeded: arrRootFits(a)
+//@   before[C01] ArrayDataSlab.Insert: arg_recv == a.root && arg_storage == a.Storage && arg_index == index && arg_value == value
+//@   before[C01] ArrayMetaDataSlab.Insert: arg_recv == a.root && arg_storage == a.Storage && arg_index == index && arg_value == value
+//@   before[C10] Array.incrementIndexFrom: arg_index == index
+//@   before[C10] Array.setCallbackWithChild: arg_i == index && arg_child == value && arg_maxInlineSize == maxInlineArrayElementSize
+//@   # the other tracked children keep their handles; those at or after the insertion point move up by one
+//@   before[C10] Array.notifyParentIfNeeded: forall id ValueID :: has(a.mutableElementIndex, id) == old(has(a.mutableElementIndex, id)) &&
+//@        (has(a.mutableElementIndex, id) ==> a.mutableElementIndex[id] == old(a.mutableElementIndex[id]) + ite(old(a.mutableElementIndex[id]) >= index, 1, 0))
 //@   ensures[C10] err == nil ==> notified > old(notified)
 //@   ensures[C18] old(hdrOf(a.root).count) == 4294967295 ==> err != nil && isUser(err) && a.root == old(a.root) && sto == old(sto) && touched == old(touched)
+//@   ensures[C11] err == nil && contV(value) ==> has(a.mutableElementIndex, vvid(unwV(value))) && a.mutableElementIndex[vvid(unwV(value))] == index
 //@   modifies heap, ghost.sto, ghost.issued, ghost.stored, ghost.touched, ghost.notified, ghost.updFail, alloc
 
-//@ func (a *Array) remove(index) (v, err)  serves C01 C10
+//@ func (a *Array) remove(index) (v, err)  serves C01 C05 C10
 //@   assume rootReady(a) because "tree invariant at the root (composition)"
+//@   before[C05] Array.notifyParentIfNeeded: arrRootFits(a)
+//@   before[C01] ArrayDataSlab.Remove: arg_recv == a.root && arg_storage == a.Storage && arg_index == index
+//@   before[C01] ArrayMetaDataSlab.Remove: arg_recv == a.root && arg_storage == a.Storage && arg_index == index
+//@   before[C10] Array.decrementIndexFrom: arg_index == index
+//@   # tracked children after the removal point move down by one
+//@   before[C10] Array.notifyParentIfNeeded: forall id ValueID :: has(a.mutableElementIndex, id) == old(has(a.mutableElementIndex, id)) &&
+//@        (has(a.mutableElementIndex, id) ==> a.mutableElementIndex[id] == old(a.mutableElementIndex[id]) - ite(old(a.mutableElementIndex[id]) > index, 1, 0))
 //@   ensures[C10] err == nil ==> notified > old(notified)
 //@   modifies heap, ghost.sto, ghost.issued, ghost.stored, ghost.touched, ghost.notified, ghost.updFail, alloc
+
+//@ pred arrExtra(a *Array) = ite(is(a.root, *ArrayDataSlab), as(a.root, *ArrayDataSlab).extraData, as(a.root, *ArrayMetaDataSlab).extraData)
 
 //@ func (a *Array) SetType(typeInfo) (err)  serves C01 C03 C08 C10 C11
 //@   requires a.Storage != nil && isArr(a.root)
 //@   requires ite(is(a.root, *ArrayDataSlab), as(a.root, *ArrayDataSlab).extraData != nil, as(a.root, *ArrayMetaDataSlab).extraData != nil)
 //@   ensures[C10] err == nil && old(ite(is(a.root, *ArrayDataSlab), as(a.root, *ArrayDataSlab).inlined, false)) ==> notified > old(notified)
 //@   ensures[C01 C03 C08 C11] err == nil && !old(ite(is(a.root, *ArrayDataSlab), as(a.root, *ArrayDataSlab).inlined, false)) ==> has(stored, a.root)
+//@   # the root written back / handed to the parent carries the new type in the same extra-data record
+//@   before[C01] Array.notifyParentIfNeeded: a.root == old(a.root) && arrExtra(a) == old(arrExtra(a)) && arrExtra(a).TypeInfo == typeInfo
+//@   before[C01] storeSlab: arg_slab == a.root && a.root == old(a.root) && arrExtra(a) == old(arrExtra(a)) && arrExtra(a).TypeInfo == typeInfo
 //@   modifies heap, ghost.sto, ghost.issued, ghost.stored, ghost.touched, ghost.notified, ghost.updFail, alloc
 
 //@ # ---- child-index tracking (C10/C11): entries at or after an insertion point move up, entries after a removal point move down
@@ -129,8 +162,10 @@ package atree
 
 //@ ghost uwv : fn(v ref) ref
 //@ ghost vvid : fn(c ref) ValueID
+//@ ghost uwsz : fn(v ref) int
 //@ iface WrapperValue.UnwrapAtreeValue() (v, size)
 //@   ensures v == uwv(recv)
+//@   ensures size == uwsz(recv)
 //@   pure
 
 //@ iface mutableValueNotifier.ValueID() (id)
@@ -139,9 +174,13 @@ package atree
 //@   ensures id == vvid(recv)
 //@   pure
 
-//@ func unwrapValue(v) (r, size)  serves C11
+//@ func unwrapValue(v) (r, size)  serves C10 C11
 //@   ensures r == unwV(v)
+//@   ensures[C10] size == wszV(v)
 //@   pure
+
+//@ # the encoded size of the wrappers around v (0 without a wrapper): the inline limit handed to a wrapped child is reduced by it
+//@ pred wszV(v Value) = ite(v != nil && is(v, WrapperValue), uwsz(v), 0)
 
 //@ # unwV(v): the value inside a wrapper (or v itself); contV(v): v denotes a mutable container (array or map), possibly wrapped
 //@ pred unwV(v Value) = ite(v != nil && is(v, WrapperValue), uwv(v), v)
@@ -156,6 +195,7 @@ package atree
 //@   ensures[C11] contV(child) ==> has(a.mutableElementIndex, vvid(unwV(child))) && a.mutableElementIndex[vvid(unwV(child))] == i
 //@   ensures[C11] !contV(child) ==> a.mutableElementIndex == old(a.mutableElementIndex)
 //@   ensures forall vid ValueID :: has(a.mutableElementIndex, vid) && a.mutableElementIndex[vid] != i ==> old(has(a.mutableElementIndex, vid)) && a.mutableElementIndex[vid] == old(a.mutableElementIndex[vid])
+//@   before[C10] mutableValueNotifier.setParentUpdater: maxInlineSize == ite(old(maxInlineSize) < wszV(child), 0, old(maxInlineSize) - wszV(child))
 //@   modifies a.mutableElementIndex, Array.parentUpdater, OrderedMap.parentUpdater, alloc
 
 //@ # ---- inline / standalone decision (C10): Storable() returns the root slab exactly when it is inlinable, else a reference to it
@@ -209,6 +249,8 @@ package atree
 //@   before Array.notifyParentIfNeeded: old(is(a.root, *ArrayDataSlab)) ==> as(a.root, *ArrayDataSlab).header.slabID == old(hdrOf(a.root).slabID)
 //@   before Array.notifyParentIfNeeded: as(a.root, *ArrayDataSlab).header.size == ite(as(a.root, *ArrayDataSlab).inlined, 17, 5)
 //@   before Array.notifyParentIfNeeded: old(is(a.root, *ArrayDataSlab)) ==> as(a.root, *ArrayDataSlab).inlined == old(as(a.root, *ArrayDataSlab).inlined) && as(a.root, *ArrayDataSlab).extraData == old(as(a.root, *ArrayDataSlab).extraData)
+//@   # a standalone root is written back (C03): the emptied root is in the write set when the parent is notified
+//@   before[C03 C08] Array.notifyParentIfNeeded: !as(a.root, *ArrayDataSlab).inlined ==> has(stored, a.root) && sto[as(a.root, *ArrayDataSlab).header.slabID] == a.root
 //@   modifies heap, ghost.sto, ghost.issued, ghost.stored, ghost.touched, ghost.notified, ghost.updFail, alloc
 
 //@ # ---- stale handles (C11): the updater closure installed on a child re-validates before touching the parent.
@@ -226,18 +268,22 @@ package atree
 //@        !is(old(as(a.root, *ArrayDataSlab).elements[a.mutableElementIndex[vid]]), WrapperStorable) &&
 //@        is(old(as(a.root, *ArrayDataSlab).elements[a.mutableElementIndex[vid]]), Slab) &&
 //@        !is(old(as(a.root, *ArrayDataSlab).elements[a.mutableElementIndex[vid]]), SlabIDStorable) &&
-//@        !vidEq(vid, old(sid(as(a.root, *ArrayDataSlab).elements[a.mutableElementIndex[vid]]))) ==> !found && err == nil && parentUntouched()
+//@        !vidIs(vid, old(sid(as(a.root, *ArrayDataSlab).elements[a.mutableElementIndex[vid]]))) ==> !found && err == nil && parentUntouched()
 //@   ensures[C11] (old(inlinedC(c)) || old(inlinableC(c, maxInlineSize))) && old(has(a.mutableElementIndex, vid)) && old(is(a.root, *ArrayDataSlab)) &&
 //@        old(a.mutableElementIndex[vid]) < old(len(as(a.root, *ArrayDataSlab).elements)) &&
 //@        !is(old(as(a.root, *ArrayDataSlab).elements[a.mutableElementIndex[vid]]), WrapperStorable) &&
 //@        is(old(as(a.root, *ArrayDataSlab).elements[a.mutableElementIndex[vid]]), SlabIDStorable) &&
-//@        !vidEq(vid, SlabID(as(old(as(a.root, *ArrayDataSlab).elements[a.mutableElementIndex[vid]]), SlabIDStorable))) ==> !found && err == nil && parentUntouched()
+//@        !vidIs(vid, SlabID(as(old(as(a.root, *ArrayDataSlab).elements[a.mutableElementIndex[vid]]), SlabIDStorable))) ==> !found && err == nil && parentUntouched()
 //@   ensures[C11] (old(inlinedC(c)) || old(inlinableC(c, maxInlineSize))) && old(has(a.mutableElementIndex, vid)) && old(is(a.root, *ArrayDataSlab)) &&
 //@        old(a.mutableElementIndex[vid]) < old(len(as(a.root, *ArrayDataSlab).elements)) &&
 //@        !is(old(as(a.root, *ArrayDataSlab).elements[a.mutableElementIndex[vid]]), WrapperStorable) &&
 //@        !is(old(as(a.root, *ArrayDataSlab).elements[a.mutableElementIndex[vid]]), SlabIDStorable) &&
 //@        !is(old(as(a.root, *ArrayDataSlab).elements[a.mutableElementIndex[vid]]), Slab) ==> !found && err == nil && parentUntouched()
 //@   ensures[C11] !found && err == nil ==> parentUntouched()
+//@   # the hand-off on the updating path (C10): the element is read at the child's current position, and the original (possibly wrapped) child is set there again
+//@   before[C10] ArrayDataSlab.Get: arg_recv == a.root && arg_storage == a.Storage && has(a.mutableElementIndex, vid) && arg_index == a.mutableElementIndex[vid]
+//@   before[C10] ArrayMetaDataSlab.Get: arg_recv == a.root && arg_storage == a.Storage && has(a.mutableElementIndex, vid) && arg_index == a.mutableElementIndex[vid]
+//@   before[C10] Array.set: arg_recv == a && arg_value == child && has(a.mutableElementIndex, vid) && arg_index == a.mutableElementIndex[vid]
 //@   modifies heap, ghost.sto, ghost.issued, ghost.stored, ghost.touched, ghost.notified, ghost.updFail, alloc
 
 //@ # Inlined() / Inlinable() of the two container kinds, read from the heap
